@@ -775,7 +775,22 @@ v("c14-restore-tolerates-missing-record", "C14", "C14.l", [(MGR, "\ttbl, version
 v("c01-dir-keyed-by-node", "C01", "C01.n", [(FSM, "fmt.Sprintf(\"%s-%d\", tableName, clusterID)", "fmt.Sprintf(\"%s-%d\", tableName, nodeID)")], "agent change C01-r4m1")
 v("c12-wildcard-delete-end-not-incremented", "C12", "C12.d1", [(DEL, "\t\t\tend = incrementRightmostByte(end)\n", "")], "the wildcard end of a range delete is the maximum key itself")
 
-v("c11-reconcile-starts-recovery-id", "C11", "C11.g", [(MGR, "\t\terr = m.startTable(tbl.Name, id)", "\t\t_ = id\n\t\terr = m.startTable(tbl.Name, tbl.RecoverID)")], "a second call site that starts a recovery shard with the table-name listener (K2 is keyed to Restore)")
+DIR = "pebble/dir.go"; HEAP = "util/heap/heap.go"
+v("c04-first-run-when-updating-file-left", "C04", "C04.i", [(DIR, "\t\treturn true\n\t}\n\treturn false\n}\n\n// GetNodeDBDirName", "\t\treturn true\n\t}\n\tif _, err := fs.Stat(filepath.Join(dir, updatingDBFilename)); err == nil {\n\t\treturn true\n\t}\n\treturn false\n}\n\n// GetNodeDBDirName")], "agent change C04-r5m1")
+v("c04-first-run-stats-other-file", "C04", "C04.i", [(DIR, "\tfp := filepath.Join(dir, currentDBFilename)\n\tif _, err := fs.Stat(fp); err != nil {\n\t\treturn true", "\tfp := filepath.Join(dir, updatingDBFilename)\n\tif _, err := fs.Stat(fp); err != nil {\n\t\treturn true")])
+v("c04-first-run-inverted", "C04", "C04.i", [(DIR, "\tif _, err := fs.Stat(fp); err != nil {\n\t\treturn true\n\t}\n\treturn false", "\t_, err := fs.Stat(fp)\n\treturn err == nil")])
+v("c04-n-first-run-returns-comparison", "C04", "none", [(DIR, "\tif _, err := fs.Stat(fp); err != nil {\n\t\treturn true\n\t}\n\treturn false", "\t_, err := fs.Stat(fp)\n\treturn err != nil")])
+v("c04-n-first-run-flag", "C04", "none", [(DIR, "\tif _, err := fs.Stat(fp); err != nil {\n\t\treturn true\n\t}\n\treturn false", "\tnewRun := false\n\tif _, err := fs.Stat(fp); err != nil {\n\t\tnewRun = true\n\t}\n\treturn newRun")])
+v("c11-heapify-skips-root", "C11", "C11.h", [(HEAP, "for i := n/2 - 1; i >= 0; i-- {", "for i := n/2 - 1; i > 0; i-- {")], "agent change C11-r5m2")
+v("c11-heapify-starts-low", "C11", "C11.h", [(HEAP, "for i := n/2 - 1; i >= 0; i-- {", "for i := n/2 - 2; i >= 0; i-- {")])
+v("c11-heapify-step-two", "C11", "C11.h", [(HEAP, "for i := n/2 - 1; i >= 0; i-- {", "for i := n/2 - 1; i >= 0; i -= 2 {")])
+v("c11-heapify-conditional-down", "C11", "C11.h", [(HEAP, "\t\th.down(i, n)\n\t}\n\treturn h", "\t\tif i%2 == 0 {\n\t\t\tcontinue\n\t\t}\n\t\th.down(i, n)\n\t}\n\treturn h")])
+v("c11-n-heapify-gt-minus-one", "C11", "none", [(HEAP, "for i := n/2 - 1; i >= 0; i-- {", "for i := n/2 - 1; i > -1; i-- {")])
+v("c11-n-heapify-from-last", "C11", "none", [(HEAP, "for i := n/2 - 1; i >= 0; i-- {", "for i := n - 1; i >= 0; i-- {")])
+v("c11-n-heapify-len-inline", "C11", "none", [(HEAP, "for i := n/2 - 1; i >= 0; i-- {", "for i := len(items)/2 - 1; 0 <= i; i-- {")])
+v("c05-sequence-stops-at-failure-result", "C05", "C05.i", [("storage/table/fsm/command_sequence.go", "\t\t_, cmdRes, err := wrapCommand(cmd).handle(ctx)\n\t\tif err != nil {\n\t\t\treturn ResultFailure, nil, err\n\t\t}\n\t\tres.Responses = append(res.Responses, cmdRes.Responses...)\n", "\t\tresult, cmdRes, err := wrapCommand(cmd).handle(ctx)\n\t\tif err != nil {\n\t\t\treturn ResultFailure, nil, err\n\t\t}\n\t\tres.Responses = append(res.Responses, cmdRes.Responses...)\n\t\tif result != ResultSuccess {\n\t\t\treturn result, res, nil\n\t\t}\n")], "agent change C05-r5m2")
+v("c11-create-starts-recovery-id", "C11", "C11.g", [(MGR, "\treturn created, m.startTable(created.Name, created.ClusterID)", "\treturn created, m.startTable(created.Name, created.RecoverID)")], "a third call site that starts a recovery shard with the table-name listener (K2 is keyed to Restore, K3 to reconcile)")
+v("c11-n-difftables-only-serving-ids", "C11", "none", [(MGR, "\t\tif t.RecoverID != 0 {\n\t\t\ttableIDs[t.RecoverID] = t\n\t\t}\n", "")], "the reconciliation no longer starts recovery shards: the reconcile site is not a recovery start (K3 line disappears, no alarm)")
 
 # the confirmed seeded changes of the sub-agents (section 11.4 of DESIGN.md) as overlays: the same
 # patches tools/run_seeded.sh applies to /repo, here without touching it
